@@ -446,6 +446,9 @@ class ExprCanon(ast.NodeTransformer):
             gname = g0.id if isinstance(g0, ast.Name) else (g0.attr if isinstance(g0, ast.Attribute) and isinstance(g0.value, ast.Name) and g0.value.id == "operator" else None)
             if gname == "itemgetter" and len(f0.args) == 1 and not isinstance(f0.args[0], ast.Starred):
                 return _loc(ast.Subscript(value=node.args[0], slice=f0.args[0], ctx=ast.Load()), node)
+            if gname == "itemgetter" and len(f0.args) > 1 and isinstance(node.args[0], ast.Name) and not any(isinstance(x, ast.Starred) for x in f0.args):
+                # several keys: the tuple of the lookups, in order
+                return _loc(ast.Tuple(elts=[_loc(ast.Subscript(value=copy.deepcopy(node.args[0]), slice=k_, ctx=ast.Load()), node) for k_ in f0.args], ctx=ast.Load()), node)
             if gname == "attrgetter" and len(f0.args) == 1 and isinstance(f0.args[0], ast.Constant) and isinstance(f0.args[0].value, str) and f0.args[0].value.isidentifier():
                 return _loc(ast.Attribute(value=node.args[0], attr=f0.args[0].value, ctx=ast.Load()), node)
             if gname == "methodcaller" and f0.args and isinstance(f0.args[0], ast.Constant) and isinstance(f0.args[0].value, str) and f0.args[0].value.isidentifier():
